@@ -1553,6 +1553,11 @@ impl Vm {
         Call::Err(LyError::Exit(code)) => self.set_exit(code),
       },
       NativeEnvironment::Normal => {
+        // the native's frame counts towards the frame limit like any other
+        if self.fiber.frames().len() >= MAX_FRAME_SIZE {
+          return self.runtime_error_from_str(self.builtin.errors.runtime, "Stack overflow.");
+        }
+
         let mut stub = self.native_fun_stubs.pop().unwrap_or_else(|| {
           self.manage_obj(Fun::stub(
             &GcHooks::new(self),
@@ -1601,7 +1606,7 @@ impl Vm {
     }
 
     // set the current current instruction pointer. check for overflow
-    if self.fiber.frames().len() == MAX_FRAME_SIZE {
+    if self.fiber.frames().len() >= MAX_FRAME_SIZE {
       return self.runtime_error_from_str(self.builtin.errors.runtime, "Stack overflow.");
     }
 
@@ -1617,7 +1622,7 @@ impl Vm {
     }
 
     // set the current current instruction pointer. check for overflow
-    if self.fiber.frames().len() == MAX_FRAME_SIZE {
+    if self.fiber.frames().len() >= MAX_FRAME_SIZE {
       return self.runtime_error_from_str(self.builtin.errors.runtime, "Stack overflow.");
     }
 
